@@ -2,6 +2,7 @@ package exec
 
 import (
 	"fmt"
+	"sort"
 
 	zerr "github.com/DemoHn/Zn/pkg/error"
 	"github.com/DemoHn/Zn/pkg/io"
@@ -156,8 +157,15 @@ func ExecVarInputText(source string) (r.ElementMap, error) {
 func ExecExpressionInputText(exprStrMap map[string]string) (r.ElementMap, error) {
 	vm := r.InitVM(globalValues)
 	result := make(map[string]r.Element)
-	for k, v := range exprStrMap {
-		evalResult, err := evalExpressionText(vm, v)
+	// evaluate in sorted key order, so that the error reported for a map with
+	// several invalid expressions does not depend on map iteration order
+	keys := make([]string, 0, len(exprStrMap))
+	for k := range exprStrMap {
+		keys = append(keys, k)
+	}
+	sort.Strings(keys)
+	for _, k := range keys {
+		evalResult, err := evalExpressionText(vm, exprStrMap[k])
 		if err != nil {
 			return nil, err
 		}
